@@ -316,6 +316,9 @@ func (m Mesh) PrimitiveCount() int {
 		return len(m.indices)
 
 	case LineTopology, LineStripTopology:
+		if len(m.indices) == 0 {
+			return 0
+		}
 		return len(m.indices) - 1
 	}
 
